@@ -494,6 +494,9 @@ def run(rep: Report) -> None:
     sym = symbol_regex(tables)
     check_resolve_order(rep, prog)
     symbol_table(rep, ev, sym, thorough)
+    from .c09 import unreached_modules
+    for m in unreached_modules(ev):
+        symbol_table(rep, evaluate(entry=m), sym, thorough)   # a data module that `systems` does not import is shipped all the same
     formatter_language(rep, prog, resolver, ev, tables, thorough)
     tables_rule(rep, prog, resolver, tables)
     spellings(rep, prog, tables)
